@@ -145,7 +145,7 @@ Lemma rel_batch s r ops : Rel s r -> Forall bop_plain ops ->
   let '(s', cl, cf) := a_batch A s ops in
   let '(r', cl', _) := r_batch r ops in
   cl = cl' /\ Rel s' r' /\
-  (cl = RCond -> s' = s /\ r' = r /\
+  (cl = RCond -> r' = r /\
      forall k' v' k v t rest, cf = Some (O, k', v') -> ops = PutIfNotExist k v t :: rest ->
        exists x, get r k = Some x /\ v' = canon_val x).
 Proof.
@@ -166,9 +166,9 @@ Proof.
       destruct (batch_go_sorted _ _ _ _ _ _ _ _ Hs Hz E1) as [Hw1 Hz1].
       exists (mk_cstore w1 z1 (clock c + 1)). cbn [st stamps]. repeat split; assumption.
     + injection Hpl as <- <-. cbn [batch_proj_ok] in Hproj. apply andb_true_iff in Hproj as [Hc Hcf].
-      destruct cl; try discriminate. split; [reflexivity|]. subst s'. split.
+      destruct cl; try discriminate. split; [reflexivity|]. split.
       * exists c. repeat split; assumption.
-      * intros _. split; [reflexivity|]. split; [reflexivity|].
+      * intros _. split; [reflexivity|].
         intros k' v' k v t rest' -> Ho. injection Ho as -> ->.
         cbn [Nat.eqb] in Hcf. apply andb_true_iff in Hcf as [Hi Hcf]. apply Nat.eqb_eq in Hi. subst i.
         cbn [nth_error bop_is_putnx] in Hcf. apply andb_true_iff in Hcf as [Hk Hv].
@@ -200,7 +200,7 @@ Notation RelS := (Rel S).
 Lemma rel_batch2 s r ops : RelS s r -> Forall bop_plain ops ->
   exists s' cl cf r', a_batch A s ops = (s', cl, cf) /\ r_batch r ops = (r', cl, None) /\ RelS s' r' /\
     (cl = ROk \/ cl = RCond) /\
-    (cl = RCond -> s' = s /\ r' = r /\
+    (cl = RCond -> r' = r /\
        forall k' v' k v t rest, cf = Some (O, k', v') -> ops = PutIfNotExist k v t :: rest ->
          exists x, get r k = Some x /\ v' = canon_val x).
 Proof.
@@ -249,49 +249,21 @@ Proof.
     - do 3 eexists. (split; [reflexivity|split; [reflexivity|exact HR1]]). }
   destruct Hcl as [-> | ->].
   - do 3 eexists. (split; [reflexivity|split; [reflexivity|exact HR1]]).
-  - destruct (Hc eq_refl) as (-> & -> & Hpay).
+  - destruct (Hc eq_refl) as (-> & Hpay).
     (* the reference side always asks the engine for the index record *)
     cbn [a_get radapter]. unfold get_result at 1.
-    assert (Hfall : forall (P : Prop),
-       ((match a_get A s rk with
-         | (ROk, v) =>
-             match parse_revision v with
-             | None => (s, Some BOther)
-             | Some (prev, tomb) =>
-                 if tomb && (prev <? rev)
-                 then let '(s2, c2, _) := a_batch A s [CAS rk rb v 0; Put ok val 0] in (s2, err_of c2)
-                 else (s, Some BCas)
-             end
-         | (RNotFound, _) => let '(s2, c2, _) := a_batch A s [PutIfNotExist rk rb 0; Put ok val 0] in (s2, err_of c2)
-         | (RPanic, _) => (s, Some BPanic)
-         | _ => (s, Some BOther)
-         end) =
-        (match a_get A s rk with
-         | (ROk, v) =>
-             match parse_revision v with
-             | None => (s, Some BOther)
-             | Some (prev, tomb) =>
-                 if tomb && (prev <? rev)
-                 then let '(s2, c2, _) := a_batch A s [CAS rk rb v 0; Put ok val 0] in (s2, err_of c2)
-                 else (s, Some BCas)
-             end
-         | (RNotFound, _) => let '(s2, c2, _) := a_batch A s [PutIfNotExist rk rb 0; Put ok val 0] in (s2, err_of c2)
-         | (RPanic, _) => (s, Some BPanic)
-         | _ => (s, Some BOther)
-         end)) -> True) by (intros; exact I).
-    clear Hfall.
-    rewrite (rel_get S s r rk HR1). unfold get_result.
+    rewrite (rel_get S s1 r rk HR1). unfold get_result.
     destruct cf as [[[[|i'] k'] v']|].
     + (* Idx = 0: the payload is the stored value *)
       destruct (Hpay k' v' rk rb 0 [Put ok val 0] eq_refl eq_refl) as (x & Gx & ->).
       rewrite Gx, canon_back. apply Hdecide.
     + destruct (get r rk) as [x|].
       * apply Hdecide.
-      * destruct (rel_batch2 s r _ HR1 Hp1) as (s2 & cl2 & cf2 & r2 & E2 & E2' & HR2 & _).
+      * destruct (rel_batch2 s1 r _ HR1 Hp1) as (s2 & cl2 & cf2 & r2 & E2 & E2' & HR2 & _).
         rewrite E2, E2'. do 3 eexists. (split; [reflexivity|split; [reflexivity|exact HR2]]).
     + destruct (get r rk) as [x|].
       * apply Hdecide.
-      * destruct (rel_batch2 s r _ HR1 Hp1) as (s2 & cl2 & cf2 & r2 & E2 & E2' & HR2 & _).
+      * destruct (rel_batch2 s1 r _ HR1 Hp1) as (s2 & cl2 & cf2 & r2 & E2 & E2' & HR2 & _).
         rewrite E2, E2'. do 3 eexists. (split; [reflexivity|split; [reflexivity|exact HR2]]).
 Qed.
 
@@ -470,7 +442,7 @@ Definition point_ok (q : req) : Prop :=
   match q with
   | QCreate _ v | QUpdate _ v _ => VP v
   | QDelete _ _ | QGet _ _ | QList _ _ _ _ => True
-  | QCompact _ | QCount _ _ | QStream _ _ _ => False
+  | QCompact _ | QCount _ _ | QStream _ _ _ | QRestart => False
   end.
 
 Lemma rel_q_step st rt q : RelB st rt -> point_ok q ->
